@@ -297,12 +297,19 @@ def register_envelope_class(db):
                 "port_type_message": "opaque:PortTypeMessage", "name": "str", "style": "str", "namespace": "str|None", "operation": "str|None"},
         requires=["len(name) > 0"],
         ensures=[("envelope-class-of-the-binding-message", "result.meta_name == 'Envelope' and result.ns_map is binding_message.ns_map")],
-        raises={"CodegenError": True, "AssertionError": True},
+        raises={"CodegenError": True, "AssertionError": "binding_message.location is None"},
         loops=[Loop(invariants=[], header="binding_message.extended_elements", vars={"namespace": "str|None"},
                     step=[("one-inner-class-per-extension-named-after-it", f"called('{BIC}') == 1 and call_arg('{BIC}', 1) is target"),
                           ("parts-come-from-exactly-one-mapper", f"called('{MP}') + called('{MR}') == 1"),
                           ("the-parts-are-added-to-what-the-inner-class-already-holds",
                            f"called('PyList.extend') == 1 and call_recv('PyList.extend') is call_result('{BIC}').attrs"),
+                          ("an-rpc-body-wraps-the-message-in-one-field-placed-in-the-namespace-the-soap-body-names",
+                           f"implies(style == 'rpc' and call_arg('{BIC}', 2) == 'Body', called('{MR}') == 1 and called('{MP}') == 0 and "
+                           f"call_arg('{MR}', 1) == operation and call_arg('{MR}', 2) is port_type_message and "
+                           f"called('PyDict.get') == 1 and call_recv('PyDict.get') is ext.attributes and call_arg('PyDict.get', 0) == 'namespace' and "
+                           f"call_arg('{MR}', 3) is call_result('PyDict.get'))"),
+                          ("every-other-extension-lists-the-message-parts",
+                           f"implies(not (style == 'rpc' and call_arg('{BIC}', 2) == 'Body'), called('{MP}') == 1 and called('{MR}') == 0)"),
                           ("message-parts-are-resolved-in-the-inner-class-scope",
                            f"implies(called('{MP}') == 1, call_arg('{MP}', 3) is ext and call_arg('{MP}', 4) is call_result('{BIC}').ns_map "
                            f"and call_arg('{MP}', 2) == port_type_message.message)")])],
